@@ -113,7 +113,7 @@ class Thread(threading.Thread):
         if self.is_alive():
             # Timed out
             return
-        if self._future_.exception():
+        if self._future_.exception() is not None:
             raise self._future_.exception()
 
     def done(self) -> bool:
